@@ -77,7 +77,13 @@ def run_solve(case, ctx):
         ctx.count("count:generator-result")
     if inc:
         ctx.count("count:include_virtual_variables")
-    res = ctx.call("solve", lambda: list(m.solve([dict(o) for o in objs], solver=solver, include_virtual_variables=inc)))
+    form = random.Random(case["seed"] + 3).random()
+    if form < 0.25:
+        mk_objs = rng.choice([lambda: (dict(o) for o in objs), lambda: map(dict, objs), lambda: iter([dict(o) for o in objs]), lambda: tuple(dict(o) for o in objs)])
+        ctx.count("count:objectives-as-iterable")
+    else:
+        mk_objs = lambda: [dict(o) for o in objs]
+    res = ctx.call("solve", lambda: list(m.solve(mk_objs(), solver=solver, include_virtual_variables=inc)))
     h = {"api": "solve", "recipe": case["recipe"], "objectives_given": objs, "include_virtual_variables": inc, "faults": {str(k): str(v) for k, v in faults.items()}}
     if "objectives" not in rec:
         ctx.check(False, "solve:polyhedron-is-asserted-model", lambda: dict(h, note="solver callable never invoked"))
